@@ -69,6 +69,14 @@ pub struct Cx {
     pub has_successor: bool,
 }
 
+/// Set by the libFuzzer entry points (and by `fcverif tape`, which must decode identically):
+/// the size-boundary generators (64 KiB strings, 1000-element slices) are switched off, because
+/// under ASan a single history over them can exceed libFuzzer's per-input timeout.
+pub static LIGHT_GENERATORS: std::sync::atomic::AtomicBool = std::sync::atomic::AtomicBool::new(false);
+pub fn light() -> bool {
+    LIGHT_GENERATORS.load(std::sync::atomic::Ordering::Relaxed)
+}
+
 thread_local! {
     pub static FORM_HITS: RefCell<BTreeMap<String, u64>> = RefCell::new(BTreeMap::new());
     pub static CLASS_HITS: RefCell<BTreeMap<String, u64>> = RefCell::new(BTreeMap::new());
